@@ -191,7 +191,7 @@ fn shrink_crash(exe: &Path, prop: &str, file: &Path, budget: usize) {
     let tmp = file.with_extension("shrink.json");
     let mut runs = 0usize;
     let t0 = Instant::now();
-    let mut still_fails = |cand: &Value, runs: &mut usize| -> bool {
+    let still_fails = |cand: &Value, runs: &mut usize| -> bool {
         *runs += 1;
         if std::fs::write(&tmp, serde_json::to_vec(cand).unwrap()).is_err() {
             return false;
